@@ -310,10 +310,21 @@ func propExplicit(t *rapid.T) {
 	ev.Case()
 	binding.ResetValidator()
 	p := genPayload(t, "")
-	format := rapid.SampledFrom([]string{"form", "json", "xml", "query", "header"}).Draw(t, "format")
+	format := rapid.SampledFrom([]string{"form", "json", "xml", "query", "header", "json-bytes", "xml-bytes", "form-values", "query-values"}).Draw(t, "format")
 	var req *http.Request
 	var bind func(c *rux.Context, got *Payload) error
+	var direct func(got *Payload) error // binder entry points that take the data itself instead of a request
 	switch format {
+	case "json-bytes":
+		b, _ := encode(p, "json")
+		direct = func(got *Payload) error { return binding.JSON.BindBytes(b, got) }
+	case "xml-bytes":
+		b, _ := encode(p, "xml")
+		direct = func(got *Payload) error { return binding.XML.BindBytes(b, got) }
+	case "form-values":
+		direct = func(got *Payload) error { return binding.Form.BindValues(values(p), got) }
+	case "query-values":
+		direct = func(got *Payload) error { return binding.Query.BindValues(queryValues(p), got) }
 	case "form":
 		b, ct := encode(p, "form")
 		req = httptest.NewRequest("POST", "/x", bytes.NewReader(b))
@@ -338,9 +349,13 @@ func propExplicit(t *rapid.T) {
 	}
 	var got Payload
 	var err error
-	r := rux.New()
-	r.Add("/x", func(c *rux.Context) { err = bind(c, &got) }, "GET", "POST")
-	r.ServeHTTP(httptest.NewRecorder(), req)
+	if direct != nil {
+		err = direct(&got)
+	} else {
+		r := rux.New()
+		r.Add("/x", func(c *rux.Context) { err = bind(c, &got) }, "GET", "POST")
+		r.ServeHTTP(httptest.NewRecorder(), req)
+	}
 	ev.Eval()
 	if p.Name == "" {
 		if err == nil {
